@@ -90,10 +90,12 @@ class Frame:
         self.closure = closure  # index of the enclosing frame in state.frames (comprehensions, lambdas)
         self.is_comp = is_comp
         self.current_exc = None
+        self.on_yield = None  # set while the frame is the generator of a with statement
 
     def clone(self):
         f = Frame(self.func, self.module, self.cls, self.env, self.fid, self.closure, self.is_comp)
         f.current_exc = self.current_exc
+        f.on_yield = getattr(self, "on_yield", None)
         return f
 
 
@@ -819,6 +821,10 @@ class Interp:
                     return ("const", x >= y)
             except TypeError:
                 pass
+        # --- an integer against 0 is its truthiness, however it is written (int(bit) / int(bit) != 0 / int(bit) == 1 is not)
+        for x, y in ((a, b), (b, a)):
+            if op == "Eq" and isinstance(y, Const) and type(y.value) is int and y.value == 0 and isinstance(x, Sym) and isinstance(x.label, tuple) and x.label[:1] == ("int",):
+                return ("not", ("truthy", x.label))
         # --- identity of two abstract CNFs / collections: the same object iff the same descriptor
         if op == "Is" and isinstance(a, ElemV) and isinstance(b, ElemV) and a.role == b.role and a.role in ("cnf", "coll", "set", "layer"):
             return ("const", a.var == b.var)
@@ -1760,6 +1766,16 @@ class Interp:
             return Sym(("call", fv.label, tuple(desc(a) if not isinstance(a, tuple) else a for a in args)))
         self.err(node, f"cannot call {fv!r}")
 
+    def eval_Yield(self, node):
+        h = None
+        for fr in reversed(self.state.frames):
+            if fr.func is not None and not fr.is_comp:
+                h = getattr(fr, "on_yield", None)
+                break
+        if h is None:
+            self.err(node, "unsupported expression Yield")
+        return h(self.eval(node.value) if node.value is not None else Const(None))
+
     def call_lambda(self, lv, args, kwargs, node):
         lam = lv.node
         fr = Frame(self.frame.func, self.frame.module, self.frame.cls, fid=self.state.fresh("fid"),
@@ -1815,8 +1831,11 @@ class Interp:
         elif extra:
             self.err(node, f"unexpected keyword arguments {sorted(extra)} in call to {getattr(fnode, 'name', 'lambda')}")
 
-    def call_function(self, fi: FunctionInfo, args, kwargs, node, force_inline=False):
+    def call_function(self, fi: FunctionInfo, args, kwargs, node, force_inline=False, on_yield=None):
         self.stats["functions"].add(fi.qualname)
+        if on_yield is None and "contextmanager" in fi.decorators:
+            # a generator-based context manager: nothing runs before the `with` statement enters it
+            return CtxGenV(fi, tuple(args), tuple(sorted(kwargs.items(), key=lambda kv: kv[0])))
         if not force_inline:
             h = self.summaries.get(fi.qualname)
             if h is not None:
@@ -1825,6 +1844,13 @@ class Interp:
             # self recursion (direct or mutual through the current stack): recorded, not unfolded
             for fr in self.state.frames:
                 if fr.func is not None and fr.func.qualname == fi.qualname and not fr.is_comp:
+                    if kwargs:
+                        # keyword arguments in their parameter's position (rules read the recursive call by role)
+                        args, kwargs = list(args), dict(kwargs)
+                        for name_ in [a.arg for a in fi.node.args.posonlyargs + fi.node.args.args][len(args):]:
+                            if name_ not in kwargs:
+                                break
+                            args.append(kwargs.pop(name_))
                     ev = self.log("recurse", node, func=fi.qualname, args=tuple(args), kwargs=dict(kwargs),
                                   snap=self.snapshot_args(args, kwargs))
                     rid = self.fresh_id("rec")
@@ -1836,6 +1862,7 @@ class Interp:
                 return Sym(("call", fi.qualname, tuple(desc(a) for a in args if not isinstance(a, tuple) or True)))
         self.stats["resolved_calls"] += 1
         fr = Frame(fi, fi.module, fi.cls, fid=self.state.fresh("fid"))
+        fr.on_yield = on_yield
         self.bind_params(fi.node.args, args, kwargs, fr, node, fi.node)
         self.state.frames.append(fr)
         # defaults are evaluated in the callee's module context
@@ -2169,20 +2196,53 @@ class Interp:
         raise ContinueSig()
 
     def exec_With(self, node):
+        self._with_items(list(node.items), node.body)
+
+    def _with_items(self, items, body):
         from . import models as M
 
-        mgrs = []
-        for item in node.items:
-            cm = self.eval(item.context_expr)
-            entered = M.enter_context(self, cm, item.context_expr)
-            if item.optional_vars is not None:
-                self.assign(item.optional_vars, entered)
-            mgrs.append((cm, item.context_expr))
+        if not items:
+            self.exec_block(body)
+            return
+        item = items[0]
+        cm = self.eval(item.context_expr)
+        if isinstance(cm, CtxGenV):
+            # @contextmanager generator: its body runs up to the yield, the with-body runs *at* the yield (an exception of the
+            # body is raised there, so the generator's try/except/finally see it), the rest runs afterwards.  return / break /
+            # continue of the body do not unwind the generator as exceptions: they are delivered after it has finished.
+            caller = self.frame
+            pending = []
+            yielded = []
+
+            def on_yield(value):
+                yielded.append(1)
+                if len(yielded) > 1:
+                    self.err(item.context_expr, "generator-based context manager yields more than once")
+                self.state.frames.append(caller)
+                try:
+                    if item.optional_vars is not None:
+                        self.assign(item.optional_vars, value)
+                    try:
+                        self._with_items(items[1:], body)
+                    except (ReturnSig, BreakSig, ContinueSig) as sig:
+                        pending.append(sig)
+                finally:
+                    self.state.frames.pop()
+                return Const(None)
+
+            self.call_function(cm.fi, list(cm.args), dict(cm.kwargs), item.context_expr, force_inline=True, on_yield=on_yield)
+            if not yielded:
+                self.err(item.context_expr, "generator-based context manager finished without yielding")
+            if pending:
+                raise pending[0]
+            return
+        entered = M.enter_context(self, cm, item.context_expr)
+        if item.optional_vars is not None:
+            self.assign(item.optional_vars, entered)
         try:
-            self.exec_block(node.body)
+            self._with_items(items[1:], body)
         finally:
-            for cm, n in reversed(mgrs):
-                M.exit_context(self, cm, n)
+            M.exit_context(self, cm, item.context_expr)
 
     def exec_Try(self, node):
         try:
